@@ -370,6 +370,8 @@ def cases(draw, tier):
         cell["max_cholesky_size"] = 0
         if ep == "root_decomposition" and "lanczos_root_leading_unit_batch" in trig and _leading_unit_batch(r):
             del cell["max_cholesky_size"]
+        elif "lanczos_diagonalization" in trig and _has_kron_added_diag(r):
+            del cell["max_cholesky_size"]
     case["cell"] = cell
     return case
 
@@ -695,13 +697,31 @@ def _ciq_domain_ok(A, rhs):
     return bool((lo >= 1e-3).all()) and bool((hi >= 1e-3).all())
 
 
+def _gap_factor(M):
+    """lambda_max / (smallest gap between two DISTINCT eigenvalues): differentiating through an eigendecomposition divides
+    rounding errors by the gaps (exact ties are structural and excluded)."""
+    if M.shape[-1] != M.shape[-2] or M.shape[-1] < 2:
+        return 1.0
+    w = torch.linalg.eigvalsh(_sym(M.detach()))
+    top = w.abs().max(dim=-1, keepdim=True)[0].clamp_min(1e-300)
+    d = (w[..., 1:] - w[..., :-1]) / top
+    d = d[d > 1e-13]
+    return float(1.0 / d.min()) if d.numel() else 1.0
+
+
 def _internal_kappa(r):
     """Condition numbers of the sub-matrices that the classes themselves factorise / invert (root decompositions of the
-    operands of Mul, the invertible summand of SumKronecker, the diagonal parts of the Woodbury / Kronecker-added-diag forms)."""
+    operands of Mul, the invertible summand of SumKronecker, the diagonal parts of the Woodbury / Kronecker-added-diag forms),
+    and the eigenvalue-gap factors of the Kronecker factors those closed forms eigendecompose."""
     k = 1.0
     for node in R.walk(r):
         op = node["op"]
         subs = []
+        if op in ("KroneckerAddedDiag", "SumKronecker"):
+            for a in node["args"]:
+                if a["op"] == "Kronecker":
+                    for f in a["args"]:
+                        k = max(k, _gap_factor(refmodel.dense(f)))
         if op == "Mul":
             subs = node["args"]
         elif op == "SumKronecker":
@@ -787,10 +807,13 @@ def _zeros_if_none(g, like):
     return torch.zeros_like(like) if g is None else g
 
 
-def _scales(b, hooks, G_hooks, g_ref):
+def _scales(b, hooks, G_hooks, g_ref, lossmag):
     """S per leaf: magnitude of the terms a gradient entry is a sum of -- the gradient of  sum((|G| + max|G|) * A_abs)  w.r.t.
-    |leaf| in the monotone 'absolute value' model of the recipe (G: reference gradient w.r.t. the dense matrix) -- and never
-    below |g_ref| + max|g_ref| (the usual normwise relative criterion)."""
+    |leaf| in the monotone 'absolute value' model of the recipe (G: reference gradient w.r.t. the dense matrix) -- never
+    below |g_ref| + max|g_ref| (the usual normwise relative criterion), plus the backward-error floor  L / max|leaf|  with
+    L = sum(|W| * |out|): a relative perturbation eps of the leaf changes the loss by about eps * L, so a gradient error
+    of rtol * L / |leaf| is what a relative rounding error rtol in the leaf itself produces (it also covers the
+    reference's own rounding noise where the exact gradient is zero)."""
     S = []
     abs_leaves = []
     amap = {}
@@ -814,7 +837,8 @@ def _scales(b, hooks, G_hooks, g_ref):
         base = g.abs() + (g.abs().max() if g.numel() else 0.0)
         if s is not None and bool(torch.isfinite(s).all()):
             base = torch.maximum(base, s.abs())
-        S.append(base + 1e-300)
+        lm = float(t.detach().abs().max()) if t.numel() else 0.0
+        S.append(base + lossmag / (lm if lm > 0 else 1.0) + 1e-300)
     return S
 
 
@@ -1010,7 +1034,8 @@ def check(case):
     for g in g_ref:
         if not bool(torch.isfinite(g).all()):
             return done("reference_nonfinite")
-    S = _scales(b, hooks, G_hooks, g_ref)
+    lossmag = float(sum((W.abs() * o.detach().abs()).sum() for W, o in zip(Ws, routs)))
+    S = _scales(b, hooks, G_hooks, g_ref, lossmag)
     symlits, ties = _sym_structure(case)
     trimask = _tri_masks(recs)
     pos = {id(l): i for i, (l, _) in enumerate(b.leaves)}
@@ -1093,6 +1118,19 @@ def _leaf_name(case, l):
 # ----------------------------------------------------------------------------------------------------------------------
 # oracle 2: _bilinear_derivative
 # ----------------------------------------------------------------------------------------------------------------------
+def _rep_owners(op):
+    """(class name, argument index) of the operator that owns each position of op.representation()."""
+    import itertools
+
+    out = []
+    for i, arg in enumerate(itertools.chain(op._args, op._differentiable_kwargs.values())):
+        if torch.is_tensor(arg):
+            out.append((type(op).__name__, i))
+        elif hasattr(arg, "representation"):
+            out += _rep_owners(arg)
+    return out
+
+
 def _check_bilinear(case, info, done, fail, nontrivial):
     labels = info["labels"]
     labels.append("uv:" + case["uv"])
@@ -1141,10 +1179,17 @@ def _check_bilinear(case, info, done, fail, nontrivial):
         return done("forward_failed")
     ref = []
     it = iter(zip(gd, ga))
-    for a, m in zip(args, matched):
+    owners = _rep_owners(op)
+    unverifiable = set()
+    for i, (a, m) in enumerate(zip(args, matched)):
         if a.requires_grad:
             d_, a_ = next(it)
             ref.append(d_ if m else a_)
+            if not m and len(owners) == len(args) and owners[i][0] == "InterpolatedLinearOperator" and owners[i][1] in (2, 4):
+                # a tensor the constructors derived (e.g. batch-expanded) AND not differentiable through the class's own
+                # multiplication (sparse interpolation matrix): no reference for this position
+                unverifiable.add(i)
+                labels.append("bilinear_pos_without_reference")
         else:
             ref.append(None)
     try:
@@ -1160,7 +1205,7 @@ def _check_bilinear(case, info, done, fail, nontrivial):
         fail("bilinear", "length", "_bilinear_derivative returned %d entries for a representation of %d tensors" % (len(got), len(rep)))
     worst = 0.0
     for i, (a, g, gref) in enumerate(zip(rep, got, ref)):
-        if not (a.dtype.is_floating_point and a.requires_grad):
+        if not (a.dtype.is_floating_point and a.requires_grad) or i in unverifiable:
             continue
         gref = torch.zeros_like(a) if gref is None else gref
         if g is None:
@@ -1294,6 +1339,10 @@ def _singular_kron_factors(recs):
     return found
 
 
+def _has_kron_added_diag(r):
+    return any(n["op"] in ("KroneckerAddedDiag", "SumKronecker") for n in R.walk(r))
+
+
 def _leading_unit_batch(r):
     for n in R.walk(r):
         bs = refmodel.shape(n)[:-2]
@@ -1319,6 +1368,7 @@ def _interp_zero_values(case):
 
 TRIGGERS = {
     "lanczos_root_leading_unit_batch": _lanczos_root_unit_batch,
+    "lanczos_diagonalization": lambda case: case["cell"].get("max_cholesky_size") == 0 and _has_kron_added_diag(case["recipe"]),
     "singular_kronecker_factor_symeig": lambda case: bool(_singular_kron_factors([case["recipe"]] + ([case["recipe2"]] if "recipe2" in case else []))),
     "batched_interp_values_under_autograd_derivative": lambda case: bool(
         _batched_interp_under_autograd([case["recipe"]] + ([case["recipe2"]] if "recipe2" in case else []))
